@@ -317,6 +317,35 @@ theorem c16_register_module (d : Diagram) (H : Nat → Option Handler) (n : Nat)
     cases hH
     exact ⟨by simp, fun k hk => by simp [hk]⟩
 
+/-! ## end to end: diagrams built through the public API, no hypothesis left -/
+
+/-- Whatever sequence of `add_module` / `connect` calls built the diagram, whatever the handlers do, whatever the
+    external inputs are and whether or not `enforce_static_checks` is on: in every run, successful or raising,
+    (1) every value recorded on an input port and every value any handler is shown has that port's data type and at
+    least its required integrity, (2) every handler invocation comes after an invocation of each module wired into
+    its module and saw that module's output, (3) no handler is invoked twice and none with a declared port unfilled,
+    (4) a handler that mislabels a declared output makes the run raise a WiringError. -/
+theorem c16_api_built_diagrams_end_to_end (ops : List BuildOp) (H : Nat → Option Handler)
+    (ext : List (Nat × List (Nat × Val))) (enforce : Bool) :
+    let d := Diagram.build ops
+    (∀ recs, (execute d H ext enforce).out = .ok recs → ∀ r ∈ recs, ∃ m, d.findMod r.name = some m ∧
+      ∀ pv ∈ r.inputs, ∃ pt, m.inputs.lookup pv.1 = some pt ∧ pv.2.fits pt) ∧
+    (∀ c ∈ (execute d H ext enforce).calls, ∃ m, d.findMod c.name = some m ∧
+      ∀ pv ∈ c.inputs, ∃ pt, m.inputs.lookup pv.1 = some pt ∧ pv.2.fits pt) ∧
+    (∀ pre c post, (execute d H ext enforce).calls = pre ++ c :: post →
+      ∀ w ∈ d.wires, w.dstM = c.name → ∃ s ∈ pre, FedBy d H w s c) ∧
+    ((execute d H ext enforce).calls.map (·.name)).Nodup ∧
+    (∀ c ∈ (execute d H ext enforce).calls, ∃ m, d.findMod c.name = some m ∧ (H c.name).isSome = true ∧
+      ∀ pp ∈ m.inputs, hasKey pp.1 c.inputs = true) ∧
+    (∀ c ∈ (execute d H ext enforce).calls, Mislabelled d H c →
+      ∃ e, (execute d H ext enforce).out = .error e ∧ e.isWiringError = true) := by
+  intro d
+  obtain ⟨hwf, hacc⟩ := c16_built_diagrams_accepted ops
+  obtain ⟨t1, t2⟩ := c16_delivered_values_typed d hwf H ext enforce (Or.inr hacc)
+  obtain ⟨n1, n2⟩ := c16_no_partially_wired_module_runs d hwf H ext enforce
+  exact ⟨t1, t2, c16_every_call_after_its_feeders d hwf hacc.wiresExist H ext enforce, n1, n2,
+    fun c hc hbad => c16_mislabelled_output_rejected d hwf H ext enforce c hc hbad⟩
+
 /-- What the pre-flight checks of `execute` demand, in the words of the property: they pass exactly when every
     wire starts at an existing module, no input port has two wires, no wired port is also given an external value,
     every module with outputs has a handler, and every input port has a wire or an external value.  (So the
